@@ -18,7 +18,7 @@
     uses the same token (C14; oracle + balance correspondence). *)
 From LP Require Import Proofs.Tactics Proofs.LedgerBase Proofs.Gates Proofs.Frames Proofs.Settle Proofs.Confirm Proofs.Ledger
   Proofs.ClaimLedger Proofs.Loop Proofs.Resume Proofs.FisherYates Proofs.Shuffle Proofs.Rng Proofs.Filter Proofs.Partition
-  Proofs.GuaranteedLoop Proofs.Leftover Proofs.Lifecycle Proofs.Setup Proofs.SetupGt Proofs.Examples.
+  Proofs.Resume3 Proofs.GuaranteedLoop Proofs.Leftover Proofs.Lifecycle Proofs.Setup Proofs.SetupGt Proofs.Examples.
 Open Scope N_scope.
 
 Theorem C01_confirm_keeps_solvency : forall (H : list N -> list N) v e b sd w n w' r A,
@@ -241,6 +241,32 @@ Proof. exact gt2_confirmed_reachable. Qed.
 Example C01_setup_nonvacuous : setup_reach sha256 Base base_confirmed.
 Proof. exact base_confirmed_reachable. Qed.
 
+(** the two NFT contracts: third stage [selectNftWinners] (nft) resp. [secondarySelectionStep] (ngt);
+    [nft_disjoint]: no address is both NFT entrant and NFT winner (both lists are empty until the
+    third stage starts).  The ticket ledger is untouched by the NFT draw; the NFT-fee ledger is C14. *)
+Theorem C01_pipeline_nft : forall (H : list N -> list N) l w0 lf wf ef bf w1 ls ws es bs w2 sd rest ln wn en bn w3,
+  PreSel w0 l -> nft_disjoint w0 ->
+  after_interrupted filter_tickets lf w0 = Some wf -> filter_tickets ef bf wf = Ok (w1, 0) ->
+  seeds w1 = sd :: rest ->
+  after_interrupted (select_winners H) ls w1 = Some ws -> select_winners H es bs ws = Ok (w2, 0) ->
+  after_interrupted (select_nft_winners_endpoint H) ln w2 = Some wn ->
+  select_nft_winners_endpoint H en bn wn = Ok (w3, 0) ->
+  ClaimInv w3 (map fst l) /\ status (st w3) = status (st w2) /\ nr_winning (st w3) = nr_winning (st w2).
+Proof. exact pipeline_nft. Qed.
+
+Theorem C01_pipeline_ngt : forall (H : list N -> list N) l w0 lf wf ef bf w1 ls ws es bs w2 sd rest ld wd ed bd w3,
+  PreSel w0 l -> NoDup (gt_users (st w0)) -> nft_disjoint w0 ->
+  after_interrupted filter_tickets lf w0 = Some wf -> filter_tickets ef bf wf = Ok (w1, 0) ->
+  seeds w1 = sd :: rest ->
+  after_interrupted (select_winners H) ls w1 = Some ws -> select_winners H es bs ws = Ok (w2, 0) ->
+  after_interrupted (secondary_selection_step H) ld w2 = Some wd ->
+  secondary_selection_step H ed bd wd = Ok (w3, 0) ->
+  ClaimInv w3 (map fst l) /\
+  dist_result false (st w2) (st w3) /\
+  (forall u, In u (gt_users (st w2)) -> owed false (st w2) u <= own_winning (st w2) (st w3) u) /\
+  (forall t, status (st w2) t = true -> status (st w3) t = true).
+Proof. exact pipeline_ngt. Qed.
+
 (** [PreSel] is satisfied by a state reached from deployment through real transactions (allocation of
     3 + 2 tickets, deposit, two confirmations of 2) *)
 Example C01_pipeline_nonvacuous : PreSel base_confirmed [(2, 3); (3, 2)].
@@ -281,6 +307,8 @@ Print Assumptions C01_drained.
 Print Assumptions C01_pipeline.
 Print Assumptions C01_pipeline_drained.
 Print Assumptions C01_pipeline_gt.
+Print Assumptions C01_pipeline_nft.
+Print Assumptions C01_pipeline_ngt.
 Print Assumptions C01_setup_reach.
 Print Assumptions C01_from_deployment.
 Print Assumptions C01_setup_nonvacuous.
